@@ -8,7 +8,7 @@
    heap (any sharing of map objects between repository, descriptors and options), every
    option record, every answer of signer and repository, every iteration order of the
    metadata map; histories of any length. *)
-From NV Require Import Base Generated C11_Model C11_Proofs.
+From NV Require Import Base Generated C11_Model C11_Proofs C11_Audit.
 
 (* --- signed: exactly the resolved descriptor plus the caller's metadata, with the
    caller's sign options; the reference was resolved once, after ParseReference; a digest
@@ -107,6 +107,22 @@ Theorem C11_refuses_unresolved : forall tbl st c st' t,
   st' = st /\ t_signs t = [] /\ t_pushes t = [] /\ t_art t = None /\ reached_signer (t_res t) = false.
 Proof. exact refuses_unresolved. Qed.
 Print Assumptions C11_refuses_unresolved.
+
+(* --- and it refuses nothing else: a call with valid arguments whose reference resolves,
+   whose digest reference (if it is one) equals the resolved digest, and whose metadata
+   keys are neither reserved nor annotations of the artifact reaches the signer, and ends
+   as the signer, the signing time and the repository decide ([outcome]) --- *)
+Theorem C11_accepts : forall tbl st c st' t d,
+  sign_oci false tbl st c = (st', t) ->
+  validate c = None -> ci_repo_nil c = false ->
+  lookup_tbl (eff_ref c) tbl = Some d ->
+  (eff_ref c = d_dg d \/ ci_isdigest c = false) ->
+  nodup_str (map fst (meta_of c (s_heap st))) = true ->
+  (forall k, In k (map fst (meta_of c (s_heap st))) ->
+             reserved k = false /\ lookup k (aread (d_ann d) (s_heap st)) = None) ->
+  t_res t = outcome c /\ reached_signer (t_res t) = true.
+Proof. exact accepts. Qed.
+Print Assumptions C11_accepts.
 
 (* the reserved prefix is a prefix test with the constant of /repo *)
 Theorem C11_reserved_is_prefix : forall k,
@@ -208,3 +224,32 @@ Proof. vm_compute. repeat split. Qed.
 
 Example C11_example_time : rfc3339 1759082096 = "2025-09-28T17:54:56Z" /\ rfc3339 951782400 = "2000-02-29T00:00:00Z".
 Proof. vm_compute. split; reflexivity. Qed.
+
+(* each refusal happens: a digest reference that resolves to another digest, a reserved
+   key, a key that is an annotation of the artifact (same value), an unresolvable
+   reference; the refused call leaves the state as it was *)
+Example C11_example_refuses :
+  let st := mk_state au_heap [] in
+  t_res (snd (sign_oci false au_tbl st (au_call "sha256:bb" true (Some 1%N) PANone))) = EDigestMismatch
+  /\ t_res (snd (sign_oci false au_tbl st (au_call "v1" false (Some 3%N) PANone))) = EMetaReserved
+  /\ t_res (snd (sign_oci false au_tbl st (au_call "v1" false (Some 4%N) PANone))) = EMetaPresent
+  /\ t_res (snd (sign_oci false au_tbl st (au_call "v9" false (Some 1%N) PANone))) = EResolve
+  /\ fst (sign_oci false au_tbl st (au_call "v1" false (Some 3%N) PANone)) = st.
+Proof. exact witness_refuses. Qed.
+
+(* the contract [wf_call] / [wf] with a signer that has plugin annotations (heap object 2)
+   is satisfiable: pushed with thumbprints and time replaced and "p" kept; object 2 is
+   the one object that changes *)
+Example C11_example_plugin_annotations :
+  let st := mk_state au_heap [] in
+  let c := au_call "v1" false (Some 1%N) (PAMap 2%N) in
+  let r := sign_oci false au_tbl st c in
+  wf_call au_heap au_tbl c = true /\ wf (mk_input au_heap au_tbl [] [c; c]) = true
+  /\ t_res (snd r) = ROk
+  /\ map pc_ann (t_pushes (snd r))
+     = [[(k_thumb, "[""ab"",""cd""]"); ("p", "q"); (k_created, "2025-09-28T17:54:56Z")]]
+  /\ hget 2%N (s_heap (fst r)) <> hget 2%N au_heap
+  /\ (forall a, In a [0; 1; 3; 4; 5]%N -> hget a (s_heap (fst r)) = hget a au_heap)
+  /\ reached_signer (t_res (snd r)) = true
+  /\ t_res (snd r) = outcome c.
+Proof. exact witness_plugin_annotations. Qed.
